@@ -209,6 +209,9 @@ impl Transform {
         if literals.iter().any(|it| !it.is_symbol()) {
             return Err(InvalidSyntax("literals must be identifiers".into()));
         }
+        if literals.contains(&ellipsis) {
+            return Err(InvalidSyntax("the ellipsis as a literal is not supported".into()));
+        }
         syntax_rules = cdr!(syntax_rules);
 
         let syntax_rules = syntax_rules.collect_vec();
@@ -216,8 +219,10 @@ impl Transform {
         for it in syntax_rules {
             let pattern = car!(it).clone();
             let template = car!(cdr!(it)).clone();
+            Self::check_pattern_support(&pattern, &ellipsis, false)?;
             let pattern = Pattern::try_new(&pattern, &ellipsis, &literals)?;
             Self::check_template_syntax(&template, &pattern, &ellipsis)?;
+            Self::check_template_support(&template, &pattern, &ellipsis, false, &mut vec![])?;
             syntax_rules_vec.push((pattern, template));
         }
 
@@ -280,6 +285,101 @@ impl Transform {
             }
         }
         Ok(())
+    }
+
+    /// Check Pattern Support
+    ///
+    /// The matcher handles proper lists with one level of ellipsis. Dotted
+    /// patterns, vector patterns and nested ellipses are rejected here instead
+    /// of being matched differently from what R7RS prescribes.
+    fn check_pattern_support(
+        pattern: &Cell,
+        ellipsis: &Cell,
+        in_ellipsis: bool,
+    ) -> Result<(), Error> {
+        let unsupported =
+            |what: &str| Err(InvalidSyntax(format!("{} in a pattern is not supported", what)));
+        match pattern {
+            Cell::Vector(_) => unsupported("a vector"),
+            Cell::Pair(_, _) => {
+                if pattern.is_improper_list() {
+                    return unsupported("a dotted list");
+                }
+                let mut iter = pattern.iter().peekable();
+                while let Some(it) = iter.next() {
+                    let ellipsis_next = iter.peek() == Some(&ellipsis);
+                    if ellipsis_next && in_ellipsis {
+                        return unsupported("a nested ellipsis");
+                    }
+                    Self::check_pattern_support(it, ellipsis, in_ellipsis || ellipsis_next)?;
+                }
+                Ok(())
+            }
+            _ => Ok(()),
+        }
+    }
+
+    /// Check Template Support
+    ///
+    /// Reject the templates expand() cannot instantiate the way R7RS prescribes:
+    /// dotted and vector templates, a bare ellipsis, nested ellipses, an ellipsis
+    /// variable outside of an ellipsis or twice under the same one, and an
+    /// ellipsis whose sub-template has no ellipsis variable to iterate over
+    /// (expand() would never leave its loop).
+    ///
+    /// `seen` collects the ellipsis variables of the enclosing sub-template.
+    fn check_template_support(
+        template: &Cell,
+        pattern: &Pattern,
+        ellipsis: &Cell,
+        in_ellipsis: bool,
+        seen: &mut Vec<Cell>,
+    ) -> Result<(), Error> {
+        let unsupported =
+            |what: &str| Err(InvalidSyntax(format!("{} in a template is not supported", what)));
+        match template {
+            Cell::Vector(_) => unsupported("a vector"),
+            Cell::Symbol(_) => {
+                if template == ellipsis {
+                    return unsupported("a bare ellipsis");
+                }
+                if pattern.is_expanded_variable(template) {
+                    if !in_ellipsis {
+                        return unsupported("an ellipsis variable without ellipsis");
+                    }
+                    if seen.contains(template) {
+                        return unsupported("an ellipsis variable used twice under one ellipsis");
+                    }
+                    seen.push(template.clone());
+                }
+                Ok(())
+            }
+            Cell::Pair(_, _) => {
+                if template.is_improper_list() {
+                    return unsupported("a dotted list");
+                }
+                let mut iter = template.iter().peekable();
+                while let Some(it) = iter.next() {
+                    if it == ellipsis {
+                        continue;
+                    }
+                    if iter.peek() == Some(&ellipsis) {
+                        if in_ellipsis {
+                            return unsupported("a nested ellipsis");
+                        }
+                        let mut seen = vec![];
+                        Self::check_template_support(it, pattern, ellipsis, true, &mut seen)?;
+                        if seen.is_empty() {
+                            return unsupported("an ellipsis without an ellipsis variable");
+                        }
+                    } else {
+                        Self::check_template_support(it, pattern, ellipsis, in_ellipsis, seen)?;
+                    }
+                }
+                Ok(())
+            }
+            _ => Ok(()),
+        }
     }
 
     /// Transform
@@ -459,6 +559,8 @@ impl Transform {
                             if !in_ellipsis {
                                 return None;
                             }
+                            // the ellipsis is exhausted: every variable starts over
+                            env.reset_iters();
                             template_iter.next();
                         }
                     }
@@ -524,6 +626,10 @@ impl<'a> PatternEnvironment<'a> {
                 .find(|it| it.0 == symbol)
                 .map(|it| it.1)
         }
+    }
+
+    fn reset_iters(&mut self) {
+        self.iters.iter_mut().for_each(|it| it.1 = None);
     }
 
     fn get_expanded_binding(&mut self, symbol: &Cell) -> Option<&'a Cell> {
